@@ -180,6 +180,14 @@ namespace awkward {
   }
 
   const FormPtr
+  UnmaskedForm::getitem_range() const {
+    return std::make_shared<UnmaskedForm>(has_identities_,
+                                          parameters_,
+                                          form_key_,
+                                          content_.get()->getitem_range());
+  }
+
+  const FormPtr
   UnmaskedForm::getitem_field(const std::string& key) const {
     UnmaskedForm step1(has_identities_,
                        util::Parameters(),
